@@ -1,3 +1,10 @@
 import PeptVerif.Props.C05
 #print axioms Pept.C05.ion_offsets_ok
 #print axioms Pept.C05.adjust_tables_ok
+#print axioms Pept.C05.forward_series_offsets
+#print axioms Pept.C05.backward_series_offsets
+#print axioms Pept.C05.internal_offsets
+#print axioms Pept.C05.immonium_mass
+#print axioms Pept.C05.charge_step
+#print axioms Pept.C05.b_plus_y
+#print axioms Pept.C05.mod_locality
